@@ -7,6 +7,7 @@ import (
 	"fmt"
 	"go/token"
 	"go/types"
+	"strings"
 
 	"golang.org/x/tools/go/ssa"
 )
@@ -286,6 +287,7 @@ func checkC02(p *Prog, r *Report) {
 
 	checkInsertOneEntry(p, r, rIns)
 	checkTransportWriter(p, r, rTW)
+	checkFullDuplex(p, r, r.Rule("duplex-enabled", "every handler which attaches both directions on one request enables full-duplex HTTP on that request before it does (else the first flush waits for the client's request body and operator input is not delivered promptly)"))
 }
 
 // checkTransportWriter: the writer argument of ConnectIn / ConnectInOut in
@@ -335,6 +337,87 @@ func checkTransportWriter(p *Prog, r *Report, ru *Rule) {
 	}
 	if n < 2 {
 		ru.Unproven("handlers:writer", token.NoPos, "%d stream writers found in the handlers, at least 2 expected", n)
+	}
+}
+
+// checkFullDuplex: for each route whose handler calls ConnectInOut, a call of
+// (*http.ResponseController).EnableFullDuplex reaches every such call —
+// in the handler (helpers folded in), or in a function wrapped around it
+// which does not make the call depend on the request.
+func checkFullDuplex(p *Prog, r *Report, ru *Rule) {
+	isDuplex := func(i ssa.Instruction) bool {
+		cc := callCommon(i)
+		return nil != cc && "(*net/http.ResponseController).EnableFullDuplex" == calleeName(cc)
+	}
+	/* Calls outside the handlers (a wrapper around the mux or a route):
+	acceptable when they do not depend on what is requested. */
+	wrapperOK, wrapperCond := false, ""
+	var wrapperPos token.Pos
+	handlers := map[*ssa.Function]bool{}
+	for _, rt := range muxRoutes(p) {
+		if nil != rt.Handler {
+			for _, f := range withAnons(rt.Handler) {
+				handlers[f] = true
+			}
+		}
+	}
+	for _, fn := range p.Funcs() {
+		if handlers[fn] || nil == fn.Pkg || !strings.HasSuffix(fn.Pkg.Pkg.Path(), hsrvPkg) {
+			continue
+		}
+		eachInstr(fn, func(i ssa.Instruction) {
+			if !isDuplex(i) {
+				return
+			}
+			wrapperOK, wrapperPos = true, posOf(i)
+			for _, b := range fn.Blocks {
+				ifi := blockIf(b)
+				if nil == ifi {
+					continue
+				}
+				for k := 0; k < 2; k++ {
+					if !edgeDominates(ifi, k, i) {
+						continue
+					}
+					if operandsReach(ifi.Cond, func(v ssa.Value) bool { return typeIs(v.Type(), "net/http", "Request") }) {
+						wrapperOK = false
+						wrapperCond = "a condition on the request (" + p.Pos(posOf(ifi)) + ")"
+					}
+				}
+			}
+		})
+	}
+	n := 0
+	for _, rt := range muxRoutes(p) {
+		if nil == rt.Handler {
+			continue
+		}
+		for _, f := range withAnons(rt.Handler) {
+			eachInstr(f, func(i ssa.Instruction) {
+				cc := callCommon(i)
+				if nil == cc || nil == cc.StaticCallee() || "Broker" != recvTypeName(cc.StaticCallee()) || "ConnectInOut" != cc.StaticCallee().Name() {
+					return
+				}
+				n++
+				c := fmt.Sprintf("%s[%s]→ConnectInOut", fnName(rt.Handler), rt.Pattern)
+				/* Reachable from the handler's entry without the call? */
+				entry := Loc{f.Blocks[0], -1, nil}
+				miss := reachQ{From: entry, Block: isDuplex, Target: func(j ssa.Instruction) bool { return j == i }}.run()
+				switch {
+				case nil == miss:
+					ru.OK(c, posOf(i), "EnableFullDuplex is called on every way to the attach")
+				case wrapperOK:
+					ru.OK(c, wrapperPos, "EnableFullDuplex is called by a function wrapped around the handlers, whatever is requested")
+				case "" != wrapperCond:
+					ru.Bad(c, posOf(i), "full-duplex HTTP is enabled outside the handler and only under %s: requests routed to this handler which do not meet it attach a shell whose first flush waits for the request body — operator input is held back", wrapperCond)
+				default:
+					ru.Bad(c, posOf(i), "both directions are attached on this request without full-duplex HTTP having been enabled: the first flush waits for the client's request body and operator input is not delivered promptly")
+				}
+			})
+		}
+	}
+	if n < 1 {
+		ru.Unproven("handlers:ConnectInOut", token.NoPos, "no route handler calls ConnectInOut")
 	}
 }
 
@@ -581,3 +664,32 @@ func checkInsertOneEntry(p *Prog, r *Report, ru *Rule) {
 }
 
 var _ = fmt.Sprintf
+
+// operandsReach: some value from which v is computed (operands of operands,
+// captured variables resolved) satisfies pred.
+func operandsReach(v ssa.Value, pred func(ssa.Value) bool) bool {
+	seen := map[ssa.Value]bool{}
+	var walk func(v ssa.Value, depth int) bool
+	walk = func(v ssa.Value, depth int) bool {
+		v = resolveFree(v)
+		if nil == v || seen[v] || depth > 12 {
+			return false
+		}
+		seen[v] = true
+		if pred(v) {
+			return true
+		}
+		i, ok := v.(ssa.Instruction)
+		if !ok {
+			return false
+		}
+		var ops []*ssa.Value
+		for _, o := range i.Operands(ops) {
+			if nil != *o && walk(*o, depth+1) {
+				return true
+			}
+		}
+		return false
+	}
+	return walk(v, 0)
+}
